@@ -285,7 +285,7 @@ def e2e_case(rng, cid):
     pp = rng.randint(0, 1)
     max_flows = rng.choice([0, 1, 2, 3])
     nb = rng.choice([1, 2, 3])
-    ops = [["setup", wp, responses, requests, pp, max_flows, nb, 30, rng.randint(0, 1)]]
+    ops = [["setup", wp, responses, requests, pp, max_flows, nb, 30, rng.randint(0, 1), int(rng.random() < 0.2)]]
     count = {}
     flips = rng.random() < 0.3
     for _ in range(rng.randint(5, 14)):
@@ -297,6 +297,11 @@ def e2e_case(rng, cid):
         tag = ("c%d-%d" % (ci, count[ci])).encode()
         total = rng.choice([len(tag), len(tag) + 1, len(tag) + 8, 100, 100, 1500, 1501, 1600])
         ops.append(["send", ci, tag + bytes(rng.randrange(256) for _ in range(total - len(tag)))])
+    if rng.random() < 0.12:       # RemoveListener under live flows: nothing is forwarded afterwards
+        ops.append(["remove"])
+        for _ in range(rng.randint(1, 2)):
+            ci = rng.randrange(0, 6)
+            ops.append(["send", ci, ("r%d" % ci).encode()])
     return Case(cid, ops)
 
 
